@@ -21,6 +21,11 @@ PInit(b, g) ==
   /\ inp = b /\ gram = g /\ pos = 1 /\ status = "run" /\ steps = 0
   /\ stack = << Frame(Len(b) + 1, [k |-> "top"]) >>
 
+\* the same as an action (used by model-checking modules that choose the input in a first step)
+PStart(b, g) ==
+  /\ inp' = b /\ gram' = g /\ pos' = 1 /\ status' = "run" /\ steps' = 0
+  /\ stack' = << Frame(Len(b) + 1, [k |-> "top"]) >>
+
 \* the element a closed frame stands for
 Close(f, d) ==
   IF d = 2 THEN (IF gram = "list" THEN [plmn |-> f.hdr.plmn, ins |-> f.items]
